@@ -44,6 +44,10 @@ def hash_class(name: str):
         def f(it, k):
             return Sc(1 + (k.val << 20), 'u64') if isinstance(k.val, int) else Sc(z3.BitVecVal(1, 64) + (z3.ZeroExt(64 - KEY_W, k.val) << 20), 'u64')
         return f, (lambda keys: [])
+    if name == 'split':         # collide in tables of up to 64 bins, spread over the halves at every later doubling
+        def f(it, k):
+            return Sc(1 + (k.val << 6), 'u64') if isinstance(k.val, int) else Sc(z3.BitVecVal(1, 64) + (z3.ZeroExt(64 - KEY_W, k.val) << 6), 'u64')
+        return f, (lambda keys: [])
     if name == 'highbits':
         def f(it, k):
             return Sc(k.val << 56, 'u64') if isinstance(k.val, int) else Sc(z3.ZeroExt(64 - KEY_W, k.val) << 56, 'u64')
@@ -188,6 +192,8 @@ class Quiescence:
             self.fail('table length %d is not a power of two <= 2^30' % n)
         if int(sc.v) != n - (n >> 2):
             self.fail('size_ctl = %s, expected 0.75 * %d = %d' % (sc.v, n, n - (n >> 2)))
+        if n_entries >= int(sc.v) and n < (1 << 30):
+            self.fail('the entry count %d has reached the growth threshold %s of the %d-bin table, but the table was not replaced by one of twice the length' % (n_entries, sc.v, n))
         if load_cell(t.fields[2]).base is not None:
             pass   # Table.next_table of the current table may only be set by get_moved during a resize of THIS table
         for i, b in enumerate(bins):
@@ -404,6 +410,21 @@ class Runner:
             if r is not None:
                 raise Unsupported('prefill insert(%d) returned %r' % (pk, r))
             entries.append(Entry(k, v))
+        # leading operations with concrete keys belong to the snapshot as well
+        orc0 = Oracle(ctx0)
+        orc0.entries = entries
+        self.kept_ids = set()
+        n_lead = 0
+        vc = itertools.count(vcount)
+        for op in sc.ops:
+            concrete = (len(op) == 1 and op[0] in ('clear', 'len')) or (len(op) > 1 and isinstance(op[1], tuple))
+            if not concrete or sc.panic_at is not None:
+                break
+            self.do_op(it, d, orc0, op, 'lead%d' % n_lead, vc, [0], {}, [])
+            n_lead += 1
+        vcount = next(vc)
+        self.snap_kept = set(self.kept_ids)
+        self.snap_lead = n_lead
         it.ctx = None
         self.steps += it.steps
         return (it, d, entries, vcount)
@@ -456,6 +477,7 @@ class Runner:
         else:
             it = Interp(self.prog, ctx, env)
         self.kept_ids = set()
+        self.live_iter = None
         trace: List[str] = []
         handed: Dict[int, Tok] = {}
         orc = Oracle(ctx)
@@ -510,7 +532,14 @@ class Runner:
                     raise Mismatch('prefill insert(%d) returned %r' % (pk, r))
                 orc.entries.append(Entry(k, v))
             bins_before = len(d.bins() or [])
+            lead = self.snap_lead if snap is not None else 0
+            if snap is not None:
+                self.kept_ids |= self.snap_kept
+                for op in sc.ops[:lead]:
+                    trace.append('%s(%s) [snapshot]' % (op[0], op[1][1] if len(op) > 1 else ''))
             for step, op in enumerate(sc.ops):
+                if step < lead:
+                    continue
                 kind = op[0]
                 tag = 's%d' % step
                 desc = '%s(%s)' % (kind, ('k%d' % op[1]) if len(op) > 1 and isinstance(op[1], int) else (op[1] if len(op) > 1 else ''))
@@ -527,6 +556,15 @@ class Runner:
                         raise Mismatch('operation %s panicked: %s' % (desc, u.msg))
                 if it.held_locks:
                     raise Mismatch('a bin lock is still held after %s returned%s' % (desc, ' by unwinding' if panicked else ''))
+                li = getattr(self, 'live_iter', None)
+                if li is not None and kind not in ('iter_new', 'iter_next', 'iter_drain'):
+                    now = {str(e.ktok.tag): e.vtok.id for e in orc.entries}
+                    prev = li.get('state', li['s0'])
+                    for tg in set(now) | set(prev):
+                        if now.get(tg) != prev.get(tg):
+                            li['touched'].add(tg)
+                    li['ever'] |= set(now.items())
+                    li['state'] = now
                 if sc.check_each_step or panicked:
                     q = Quiescence(d, orc, hash_of)
                     nodes = q.check()
@@ -773,6 +811,42 @@ class Runner:
                         orc.entries.remove(e)
             if len(seen) + 0 != len(orc.entries) + len(removed):
                 raise Mismatch('retain visited %d entries, the reference held %d' % (len(seen), len(orc.entries) + len(removed)))
+        elif kind == 'iter_new':
+            itv = it.call_fn(d.fn('map::HashMap::iter'), [d.mref, d.gref])
+            self.live_iter = {'holder': Holder(itv), 's0': {str(e.ktok.tag): e.vtok.id for e in orc.entries}, 'touched': set(),
+                              'ever': {(str(e.ktok.tag), e.vtok.id) for e in orc.entries}, 'yielded': [], 'done': False}
+        elif kind in ('iter_next', 'iter_drain'):
+            li = self.live_iter
+            n = op[1][1] if kind == 'iter_next' else 100000
+            for _ in range(n):
+                if li['done']:
+                    break
+                r = it.call_fn(d.fn('<iter::Iter as Iterator>::next'), [Ptr(li['holder'], ())])
+                if r.variant == 'None':
+                    li['done'] = True
+                    break
+                x = r.fields[0]
+                kt, vt = it.load_ptr(x.fields[0]), it.load_ptr(x.fields[1])
+                li['yielded'].append((str(kt.tag), vt.id))
+                if len(li['yielded']) > 10000:
+                    raise Mismatch('the iterator does not terminate')
+            if kind == 'iter_drain':
+                if not li['done']:
+                    raise Mismatch('the iterator did not finish')
+                ys = li['yielded']
+                for tg, vid in ys:
+                    if (tg, vid) not in li['ever']:
+                        raise Mismatch('the iterator yielded (%s, value#%d), a pair that was never in the map during the iteration' % (tg, vid))
+                for tg, vid in li['s0'].items():
+                    if tg in li['touched']:
+                        continue
+                    cnt = len([1 for (a, b) in ys if a == tg])
+                    if cnt != 1:
+                        raise Mismatch('key instance %s was present and untouched for the whole iteration but was yielded %d times (yielded: %s)' % (tg, cnt, ys))
+                    if (tg, vid) not in ys:
+                        raise Mismatch('key instance %s was yielded with a value other than its (unchanged) value' % tg)
+                it.drop_value(li['holder'].val, 'iterator drop')
+                self.live_iter = None
         elif kind == 'clear':
             d.clear()
             orc.entries.clear()
